@@ -214,6 +214,8 @@ Definition sdk_advance_ingress (t : topology) (ia : N) (K : key) (now cur_if : N
         | false, false =>
           Ok (commit (p_ci p) (p_ch p), alert, cur_ing, Some (hop_egress h1 inf1), verr)
         | false, true =>
+          (* the advanced index must fit the 6-bit CurrHF field (routing.rs since 37d9551) *)
+          if (63 <? S (p_ch p))%nat then Err tt else
           match nth_error (p_hops p) (S (p_ch p)), nth_error (p_infos p) (S seg) with
           | Some nh, Some ninf =>
             let verr := or_else verr (sdk_validate_seg_change t ia h1 inf1 nh ninf) in
@@ -240,6 +242,7 @@ Definition sdk_advance_egress (K : key) (now eg_if : N) (p : path)
       match nth_error (p_hops p) (p_ch p), nth_error (p_infos p) (p_ci p) with
       | Some h, Some inf =>
         if (n <=? p_ch p + 1)%nat then Err tt
+        else if (63 <? S (p_ch p))%nat then Err tt     (* CurrHF must not wrap *)
         else if en then Err tt
         else
           let cons := i_cons inf in
